@@ -82,6 +82,38 @@ def check(ctx, case):
 			from gambit.util.misc import chunk_slices
 			real = ';'.join(f'{s.start},{s.stop}' for s in chunk_slices(case['n'], case['size']))
 			return [f'c05.chunks {case["n"]} {case["size"]} {real}'], []
+		if kind == 'reuse':
+			# the same plain list object passed twice, one element replaced in place in between: the second result must reflect the new contents
+			ss, ss2 = case['sigs'], case['sigs2']
+			L = [np.array(s, dtype=dt) for s in ss]
+			refs, closer = container(case['rcont'], case['refs'], dt)
+			lines = []
+			for step, cur in enumerate((ss, ss2)):
+				for i, s_ in enumerate(cur):
+					if step == 1 and s_ != ss[i]:
+						L[i] = np.array(s_, dtype=dt)
+				if case.get('pairwise'):
+					table = table_of(cur, cur, dt, dt)
+					res = metric.jaccarddist_pairwise(L)
+					lines.append(f'c05.pairwise {natlists(table)} {nats(range(len(cur)))} 0 {natlists(res.view(np.uint32).tolist()) if len(cur) else "_"}')
+				else:
+					table = table_of(cur, case['refs'], dt, dt)
+					res = metric.jaccarddist_matrix(L, refs)
+					out0 = [[0] * len(case['refs']) for _ in cur]
+					lines.append(f'c05.matrix {len(cur)} {len(case["refs"])} {natlists(table)} ~ ~ {natlists(out0)} {natlists(res.view(np.uint32).tolist())}')
+			case['_nt'] = True
+			return lines, pyfails
+		if kind == 'matrix' and case.get('qdts'):
+			# queries held in different integer types (incl. values that do not fit the references' type)
+			qs, rs = case['qs'], case['refs']
+			qarrs = [np.array(q, dtype=d) for q, d in zip(qs, case['qdts'])]
+			rarrs = [np.array(r, dtype=dt) for r in rs]
+			table = [[bits(metric.jaccarddist(q, r)) for r in rarrs] for q in qarrs]
+			refs, closer = container(case['rcont'], rs, dt)
+			res = metric.jaccarddist_matrix(qarrs, refs, chunksize=case.get('chunk'))
+			out0 = [[0] * len(rs) for _ in qs]
+			case['_nt'] = len(rs) >= 2
+			return [f'c05.matrix {len(qs)} {len(rs)} {natlists(table)} ~ {opt(case.get("chunk"))} {natlists(out0)} {natlists(res.view(np.uint32).tolist()) if len(rs) and len(qs) else natlists([[] for _ in qs])}'], pyfails
 		if kind == 'matrix':
 			qs, rs = case['qs'], case['refs']
 			table = table_of(qs, rs, case.get('dtq', dt), dt)
@@ -241,6 +273,40 @@ def run(ctx):
 					idx = [rng.randrange(n) for _ in range(rng.randint(0, n + 2))]
 				sub({'kind': 'pairwise', 'sigs': ss, 'cont': fix_rc(n, rc), 'dt': dt, 'indices': idx, 'flat': rng.random() < 0.5,
 				     'out': rng.choice([None, 'contig']), 'threads': threads}, 'pairwise')
+		# queries in mixed integer types: byte images that coincide across types, values beyond the references' type
+		TOP = {'u2': 2 ** 16, 'u4': 2 ** 32}
+		for j in range(ctx.q(250, 3000)):
+			if not ctx.time_left(0.9):
+				break
+			dt = rng.choice(['u2', 'u4'])
+			wide = 'u4' if dt == 'u2' else 'u8'
+			rs = rand_sigs(rng, rng.randint(1, 6))
+			qs, qdts = [], []
+			for _ in range(rng.randint(2, 5)):
+				r = rng.random()
+				if r < 0.35:
+					# a narrow signature [a, b] and the wide signature [a + b * 2^bits] have the same bytes
+					a, b = sorted(rng.sample(range(0, 30), 2))
+					qs.append([a, b]); qdts.append(dt)
+					qs.append([a + b * TOP[dt]]); qdts.append(wide)
+				elif r < 0.7:
+					v = sorted(set(rng.sample(range(40), rng.randint(1, 5))) | {rng.choice([TOP[dt], TOP[dt] + rng.randrange(40), TOP[dt] * 3 + 5])})
+					qs.append(v); qdts.append(wide)
+				else:
+					qs.append(sorted(rng.sample(range(40), rng.randint(0, 6)))); qdts.append(rng.choice([dt, wide]))
+			sub({'kind': 'matrix', 'qs': qs, 'qdts': qdts, 'refs': rs, 'rcont': rng.choice(['array', 'siglist', 'plain', 'array']), 'dt': dt,
+			     'chunk': rng.choice([None, 1, 2, 1000]), 'threads': rng.randint(1, tmax)}, 'mixed-type-queries')
+		# the same list object, edited in place between two calls
+		for j in range(ctx.q(150, 1500)):
+			if not ctx.time_left(0.93):
+				break
+			n = rng.randint(1, 6)
+			ss = rand_sigs(rng, n)
+			ss2 = [list(x) for x in ss]
+			for i in rng.sample(range(n), rng.randint(1, n)):
+				ss2[i] = rand_sigs(rng, 1)[0]
+			sub({'kind': 'reuse', 'sigs': ss, 'sigs2': ss2, 'refs': rand_sigs(rng, rng.randint(1, 5)), 'rcont': rng.choice(['array', 'siglist', 'plain']),
+			     'dt': rng.choice(['u4', 'u8']), 'pairwise': rng.random() < 0.4, 'threads': rng.randint(1, tmax)}, 'list-reused-across-calls')
 		# schedule sampling: the same larger computation repeated under every thread count
 		reps = ctx.q(3, 25)
 		rs = rand_sigs(rng, 300, universe=400)
